@@ -262,8 +262,6 @@ type wrld struct {
 
 var chainID = []byte("c20-chain")
 
-var dbg bool
-
 func newWorld(sc Scenario) (*wrld, error) {
 	w := &wrld{sc: sc, ctx: context.Background(), byID: map[string]int{}, splitHeight: map[int]bool{},
 		fetchedAt: map[int]int{}, labels: map[string]bool{}, obs: map[string]bool{}}
@@ -480,13 +478,6 @@ func (w *wrld) get(limit uint64, when string) *world.Verdict {
 		}()
 		resp, err = w.seq.GetNextBatch(w.ctx, req)
 	}()
-	if dbg {
-		n := -1
-		if resp != nil && resp.Batch != nil {
-			n = len(resp.Batch.Transactions)
-		}
-		fmt.Printf("%s: get(limit=%d) -> ntx=%d err=%v pan=%v\n   store=%q\n", when, limit, n, err, pan, w.store.Image())
-	}
 	if pan != nil {
 		// the statement does not promise "never panics": observed, not judged
 		w.obs[fmt.Sprintf("panic in GetNextBatch: %.80v", pan)] = true
@@ -748,11 +739,11 @@ func smallScenarios() []Scenario {
 // ---------------------------------------------------------------------------------------------
 
 func TestC20History(t *testing.T) {
-	world.Run(t, "C20", "history", world.Scale(1500, 12000), genHistory, run)
+	world.Run(t, "C20", "history", world.Scale(1500, 40000), genHistory, run)
 }
 
 func TestC20StableDA(t *testing.T) {
-	world.Run(t, "C20", "stable-da", world.Scale(800, 6000), genStable, run)
+	world.Run(t, "C20", "stable-da", world.Scale(800, 15000), genStable, run)
 }
 
 func TestC20SmallScope(t *testing.T) {
